@@ -601,7 +601,6 @@ def main():
         if not a.keep:
             for i in range(a.j):
                 sh('git', '-C', REAL, 'worktree', 'remove', '--force', os.path.join(SCRATCH_ROOT, 'w%d' % i))
-            sh('git', '-C', REAL, 'worktree', 'prune')
             try: os.rmdir(SCRATCH_ROOT)
             except OSError: pass
 
